@@ -261,3 +261,31 @@ Theorem C12_tsx_residue_refuted :
   exists v, last_vals (tsx_init (pw := PW8) 2 0.75%float 1 SClose (flatc 100000000 1)) (tsx_next (pw := PW8))
               [flatc 100 1; flatc 0.7 1] = [v] /\ PrimFloat.ltb v (-1)%float = true.
 Proof. eexists. split; vm_compute; reflexivity. Qed.
+
+(** on BINARY64 itself, with no rounding allowance: Aroon-up and Aroon-down of the model instantiated at IEEE binary64 are finite
+    and lie in [0, 1] after every stream, for every accepted configuration (every PeriodType width up to 32 bits).  The age
+    returned by HighestIndex / LowestIndex lies in [0, period) on any carrier; small integers convert exactly; rounding is
+    monotone and 0 and 1 are floats *)
+From Yata Require Import Base.NumF64 Proofs.RoundingLink Proofs.Binary64Range Proofs.Binary64Aroon.
+Theorem C12_aroon_binary64_range {pw : PW} period zone ozp (c0 : candle (N := NumF64)) s0 cs c :
+  aroon_init period zone ozp c0 = Ok s0 -> (pmax <= 2 ^ 53)%Z ->
+  Forall (fun v => fin v /\ (0 <= val v <= 1)%R) (fst (snd (aroon_next (steps aroon_next s0 cs) c))).
+Proof. exact (aroon_binary64_range period zone ozp c0 s0 cs c). Qed.
+Example C12_aroon_binary64_range_witness :
+  is_ok (aroon_init (pw := PW8) 14 0.3%float 7 (flatc 100 1)) = true /\ (@pmax PW8 <= 2 ^ 53)%Z.
+Proof. split; [vm_compute; reflexivity|vm_compute; discriminate]. Qed.
+
+(** RelativeStrengthIndex with an exponential average (the default kind) at IEEE binary64: finite and in [0, 1] after every stream
+    of candles whose source price is finite and in [0, 2^999] - no rounding allowance.  Every operation rounds, but rounding is
+    monotone and keeps floats fixed: an EMA step with 0 <= alpha <= 1/2 lies between the old value and the input, so the average
+    gain stays >= 0 and the average loss <= 0; the rounded sum of two non-negative floats is at least each of them; the rounded
+    quotient of 0 <= p <= s lies in [0, 1].  (The positive counterpart of KF-C12-rsi-residue, which needs a running-sum average.) *)
+From Yata Require Import Proofs.Binary64Rsi.
+Theorem C12_rsi_ema_binary64_range {pw : PW} (c : rsi_cfg (N := NumF64)) n (c0 : candle (N := NumF64)) s0 cs k :
+  rsi_init c c0 = Ok s0 -> rc_ma c = MAcfg KEMA n -> (n < 2 ^ 52)%Z ->
+  src_ok (rc_source c) c0 -> Forall (src_ok (rc_source c)) (cs ++ [k]) ->
+  Forall (fun v => fin v /\ (0 <= val v <= 1)%R) (fst (snd (rsi_next (steps rsi_next s0 cs) k))).
+Proof. exact (rsi_ema_binary64_range c n c0 s0 cs k). Qed.
+Example C12_rsi_ema_binary64_range_witness :
+  is_ok (rsi_init (pw := PW8) (mkRsiCfg (MAcfg KEMA 14) 0.3%float SClose) (flatc 100 1)) = true.
+Proof. vm_compute. reflexivity. Qed.
